@@ -20,7 +20,7 @@ def counter_frames(rng, net, mtu):
     out = []
     m = rng.randrange(len(net.mappers))
     out.append(G.f_discover(rng, net, m=m, tos=0))
-    fits_e, fits_s = G.cap_emit(mtu), G.cap_stations(mtu)
+    fits_e, fits_s = G.cap_emit(mtu), min(G.cap_stations(mtu), 0xFFF0)
     for cnt in (0, 1, fits_e, fits_e + 1, 0xFFFF, rng.randint(0, 0xFFFF)):
         carried = min(fits_e, cnt) if rng.random() < 0.7 else rng.randint(0, fits_e)
         fr, _ = G.f_emit(rng, net, m, n=carried) if carried else (W.emit(net.own, net.mappers[m], 5, []), None)
